@@ -7,8 +7,7 @@ from ..core import c_nat, c_float, c_bool, c_list
 ANCHORS = {"admm/solver.py": ["run_admm_optimization", "admm_update_u", "admm_update_x", "admm_update_z", "check_convergence",
                               "soft_threshold_prox", "compute_lambda_sum", "x_update_prox"],
            "admm/front_end.py": ["admm_optimize_theta"]}
-R_AX = ["ClassicalDedekindReals.sig_forall_dec", "ClassicalDedekindReals.sig_not_dec",
-        "FunctionalExtensionality.functional_extensionality_dep"]
+R_AX = core.R_AX
 RULE = ("(a) bit-exact unit correspondence of soft threshold, np.sum model, both lambda-sum branches, Z update, U update, eigenvalue map "
         "(diagonal inputs), convergence test against the binary64 model; (b) loop replays: the model loop driven by the recorded X updates "
         "and norms must reproduce iteration count, stop flag and final (z,u) bit for bit, with and without a rho-update callback; "
